@@ -6,6 +6,7 @@ import threading
 
 from . import c14 as C14
 from . import c18lib as L
+from . import c18raw as RAW
 from . import subserver as SUB
 
 PROPERTY = "C18"
@@ -27,7 +28,20 @@ RULE = ("(a) tables: proofs by `decide` over the tables/guards translated from t
         "clone of objects and CTraits, container mutators, delegates and properties, raw CTrait construction, "
         "attribute names with a failing __hash__) run in a subprocess - normal build in the quick tier, ASan+UBSan "
         "build (clang-14) in the thorough tier; a crash, a sanitizer report or a reference count of a tracked value "
-        "off its baseline after everything is released is a hit with the program as replay")
+        "off its baseline after everything is released is a hit with the program as replay. (d) W cases: a default "
+        "computation (_x_default method, Instance factory with args / kw, validator of a computed default, callable "
+        "default of a TraitType) failing with 5 exception classes x warnings filter default/error/ignore/always x "
+        "getattr/hasattr/3-argument getattr/trait_get/default_value_for/first assignment with a listener, three "
+        "failures in a row in the subprocess: what comes out, its __cause__, warnings recorded, reference count of "
+        "the exception object (held instance: exact; fresh instance: weak reference checked before anything "
+        "touches it) compared with Model.RefLedger.Warn; the factory's argument / keyword value, the name object "
+        "and the HasTraits object must be back at their counts. (e) A cases: raw CTrait calls on 3 traits x 6 "
+        "payloads with ALIASED arguments (t.clone(t), clone / __setstate__(__getstate__()) into a used trait, a "
+        "setter given the object the field holds, a field re-set from its getter, _set_property twice), every "
+        "payload either counted exactly or owned by the traits only (weak reference checked right after the call, "
+        "before any collection) and equipped with a finalizer that looks for itself in every field of every "
+        "trait; compared with the event machine Model.RefLedger.Raw (incref / decref / store, checkpoints after "
+        "each decref)")
 TRUSTED = [
     "translator ctables.py (regex reader of ctraits.c, fails closed): tables, assignment sites, guards, constants",
     "PyType_GenericNew zero-fills a new CTrait (post_setattr / validate / delegate_attr_name start NULL)",
@@ -105,6 +119,12 @@ def corpus():
         "#V Either(Range,Float) | f5.5 | set", "#V Either(Range,Str) | f5.5 | set",
         "#V Either(Range,Float) | f5.5 | validate", "R|vn|set x 10 2 dflt=9 notify=0:RuntimeError",
         "T|new 3;delegate 4;dprobe", "T|new 3;delegate 100;dprobe",
+        # round 4: failing defaults under warnings filters; raw CTrait calls with aliased arguments
+        "W|method|AttrSub|error|getattr|held", "W|factory|AttrSub|error|getattr|fresh",
+        "W|factorykw|AttributeError|error|hasattr|held", "W|validate|AttributeError|error|trait_get|held",
+        "W|method|KeyError|error|getattr|held", "W|method|AttributeError|default|hasattr|held",
+        "A|ssssss|ps 0 0;v 0 1;dv 0 2;h 0 3;cl 0 0;rd 0;drop 0", "A|hhhhhh|dv 0 0;cl 1 0;cl 1 0;drop 1",
+        "A|ssssss|h 0 0;ss 0 0;rd 0", "A|ssssss|v 0 0;v 0 1", "A|hhhhhh|v 0 0;v 0 0;re 0 validate;drop 0",
         "T|new 3;probe", "T|new 7;probe", "T|new 4;property 1 2 1 1;post 0;probe", "T|new 0;default 5;probe",
         "#PROG " + json.dumps({"family": "raw-ctrait", "traits": {"i": "int"}, "steps": [
             ["new", "o"], ["raw_ctrait", 3, "bare", 0, "get"], ["gc"]]}, sort_keys=True),
@@ -139,6 +159,10 @@ def generate(rng, tier):
         yield "#GC %s saveall" % sc
         yield "#GC %s plain" % sc
     for c in L.gen_u(rng, {"quick": 300, "thorough": 6000}.get(tier, 2000)):
+        yield c
+    for c in RAW.gen_w(rng, {"quick": 60, "thorough": 1500}.get(tier, 400)):
+        yield c
+    for c in RAW.gen_a(rng, {"quick": 500, "thorough": 12000}.get(tier, 3000)):
         yield c
     for _ in range(nT):
         yield C14.random_T(rng)
@@ -282,9 +306,26 @@ def run_gc(case):
     return out, hits, ["GC:" + mode]
 
 
+def run_w(case):
+    ans = _server(False).request({"k": "W", "spec": RAW.w_spec(case)})
+    out, hits = RAW.judge_w(case, ans, False, SUB.crash_summary)
+    return out, hits, ["W:" + RAW.w_spec(case)["mode"]]
+
+
+def run_a(case):
+    ans = _server(False).request({"k": "A", "spec": RAW.a_spec(case)})
+    out, hits = RAW.judge_a(case, ans, False, SUB.crash_summary)
+    return out, hits, ["A:alias" if any(o[0] in ("cl", "ss") and o[1] == o[2] for o in RAW.a_spec(case)["ops"])
+                       else "A:other"]
+
+
 def run_impl(case):
     if case.startswith("#GC "):
         return run_gc(case)
+    if case.startswith("W|"):
+        return run_w(case)
+    if case.startswith("A|"):
+        return run_a(case)
     if case.startswith("R|"):
         return L.run_r(case)
     if case.startswith("T|"):
@@ -330,6 +371,17 @@ def shrink(case, fails):
                 if cand and fails("R|%s|%s" % (cfg, ";".join(cand))):
                     ol, changed = cand, True
         return "R|%s|%s" % (cfg, ";".join(ol))
+    if case.startswith("A|"):
+        _, holds, ops = case.split("|")
+        ol = [o for o in ops.split(";") if o.strip()]
+        changed = True
+        while changed and len(ol) > 1:
+            changed = False
+            for i in range(len(ol) - 1, -1, -1):
+                cand = ol[:i] + ol[i + 1:]
+                if cand and fails("A|%s|%s" % (holds, ";".join(cand))):
+                    ol, changed = cand, True
+        return "A|%s|%s" % (holds, ";".join(ol))
     return case
 
 
@@ -369,6 +421,7 @@ def extra_checks(ctx):
             ["new", "o"], ["raw_ctrait", 0, "default", v, "all"], ["gc"]]})
     gc_specs = [{"scenario": sc, "mode": "plain"} for sc in SUB.GC_SCENARIOS]
     h_cases = gen_h(random.Random(ctx["seed"] * 31 + 7), 400)
+    wa_cases = RAW.gen_w(random.Random(ctx["seed"] * 17 + 3), 200) + RAW.gen_a(random.Random(ctx["seed"] * 13 + 1), 1500)
     nthreads = 12
     hits = []
     lock = threading.Lock()
@@ -397,6 +450,20 @@ def extra_checks(ctx):
                         h["impl"] = out
                         h["no_shrink"] = True
                         hits.append(h)
+            for wc in (wa_cases[chunks.index(chunk)::nthreads] if chunk in chunks else []):
+                if wc.startswith("W|"):
+                    ans = srv.request({"k": "W", "spec": RAW.w_spec(wc)})
+                    out, hs = RAW.judge_w(wc, ans, True, SUB.crash_summary)
+                else:
+                    ans = srv.request({"k": "A", "spec": RAW.a_spec(wc)})
+                    out, hs = RAW.judge_a(wc, ans, True, SUB.crash_summary)
+                with lock:
+                    stats["wa"] = stats.get("wa", 0) + 1
+                    for h in hs:
+                        h["case"] = wc
+                        h["impl"] = out
+                        h["no_shrink"] = True
+                        hits.append(h)
             for prog in chunk:
                 ans = srv.request({"k": "PROG", "prog": prog})
                 out, hs = judge_program(prog, ans, True)
@@ -421,8 +488,10 @@ def extra_checks(ctx):
     for t in ths:
         t.join()
     _EXTRA.update({"sanitizer_tier": "ASan+UBSan build (clang-14, PYTHONMALLOC=malloc), %d programs, %d ended in a crash/report; %d "
-                                     "gc-during-dealloc scenarios; %d handler-list-mutation cases" % (
-                                         stats["run"], stats["crashes"], stats.get("gc", 0), stats.get("h", 0))})
+                                     "gc-during-dealloc scenarios; %d handler-list-mutation cases; %d failing-default / "
+                                     "aliased raw-CTrait cases" % (
+                                         stats["run"], stats["crashes"], stats.get("gc", 0), stats.get("h", 0),
+                                         stats.get("wa", 0))})
     return hits
 
 
